@@ -16,7 +16,8 @@ TRUSTED = [
     'coq/base/SqlBase.v + Val.v: relational reading of the SQL subset (three-valued WHERE, stable ORDER BY, LIMIT), compiled from the SQL text of core.py by tools/sqlsubset.py; validated by the row-level correspondence of this run',
     'times are Z ticks of 2^-10 s; the harness keeps clock and ttl on that grid (now + expire exact in binary64)',
 ]
-ASSUMPTIONS = ['one client; the clock is frozen during a call', 'expire()/lazy-cull clauses: absolute expiry times >= 0 (finding C04-F1 otherwise)']
+ASSUMPTIONS = ['one client at a time (the other-handle scenarios use several handles, one after the other); the clock is frozen during a call', 'expire()/lazy-cull clauses: absolute expiry times >= 0 (finding C04-F1 otherwise)',
+               'other-handle scenarios are decided by the monitor only (rows before / after through the harness\'s own connection); the row model has one handle']
 
 W = {'set': 16, 'add': 8, 'get': 14, 'contains': 8, 'touch': 8, 'incr': 8, 'pop': 5, 'delete': 5, 'delitem': 2,
      'push': 8, 'pull': 5, 'peek': 4, 'peekitem': 3, 'expire': 4, 'cull': 1, 'len': 1, 'iter': 1, 'evict': 0, 'clear': 0,
@@ -210,6 +211,257 @@ def many_share_one_time(ctx, res, stats, n):
         c.close()
 
 
+# ---------------------------------------------------------------------------------------------------------------
+# Expiry is a property of the stored ITEMS, not of the handle that stored them: the removal entry points and the lookups are exercised
+# through a handle OTHER than the writer's (the directory reopened, a second handle, an unpickled copy, another process), for Cache,
+# FanoutCache and DjangoCache.
+
+HANDLE_KINDS = ['writer', 'reopen', 'second', 'pickle', 'fork']
+CONTAINERS = ['Cache', 'FanoutCache', 'DjangoCache']
+ENTRIES = ['expire', 'cull', 'evict', 'clear', 'lookups']
+_TTLS = [1, 2, 2, None, 5, 50, 1, None, 0.5, 3600, 2 ** -10, 2]
+_TAGS = [None, 'red', 'blue']
+_MISS = object()
+
+
+def _django_cache():
+    from django.conf import settings
+    if not settings.configured:
+        settings.configure()
+    from diskcache.djangocache import DjangoCache
+    return DjangoCache
+
+
+def _open(container, d):
+    kw = dict(cull_limit=0, disk_min_file_size=16, eviction_policy='least-recently-stored')
+    if container == 'Cache':
+        return diskcache.Cache(d, **kw)
+    if container == 'FanoutCache':
+        return diskcache.FanoutCache(d, shards=3, **kw)
+    return _django_cache()(d, {'SHARDS': 3, 'OPTIONS': kw})
+
+
+def _reopen(container, d):
+    """a handle created by someone who knows the directory only (settings are persisted)"""
+    if container == 'Cache':
+        return diskcache.Cache(d)
+    if container == 'FanoutCache':
+        return diskcache.FanoutCache(d, shards=3)
+    return _django_cache()(d, {'SHARDS': 3})
+
+
+def _observe_all(d):
+    """{(shard directory, rowid): row} over every cache.db below d, read through connections of the harness"""
+    import os
+    out = {}
+    for dp, dn, fn in os.walk(d):
+        if 'cache.db' in fn:
+            rows = seqdrv.observe(dp)[0]
+            for r in rows:
+                out[(os.path.relpath(dp, d), r[0])] = r
+    return out
+
+
+def _populate(container, w, n):
+    """n items written at the current time; -> [(key, ttl, tag)]"""
+    items = []
+    for i in range(n):
+        ttl, tag = _TTLS[i % len(_TTLS)], _TAGS[i % len(_TAGS)]
+        v = i if i % 4 else 'file-backed value %d ' % i * 3
+        k = 'k%d' % i
+        how = i % 5
+        if container == 'DjangoCache':
+            if how == 1:
+                w.add(k, v, timeout=ttl, tag=tag)
+            elif how == 2 and ttl is not None:
+                w.set(k, v, timeout=None, tag=tag)
+                w.touch(k, timeout=ttl)
+            else:
+                w.set(k, v, timeout=ttl, tag=tag)
+        else:
+            if how == 1:
+                w.add(k, v, expire=ttl, tag=tag)
+            elif how == 2 and ttl is not None:
+                w.set(k, v, tag=tag)
+                w.touch(k, expire=ttl)
+            else:
+                w.set(k, v, expire=ttl, tag=tag)
+        items.append((k, ttl, tag))
+    return items
+
+
+def _do_entry(h, container, entry, keys):
+    """the calls made through the handle under test; -> JSON-able dict"""
+    out = {}
+    if entry == 'expire':
+        out['r'] = h.expire()
+    elif entry == 'cull':
+        out['r'] = h.cull()
+    elif entry == 'evict':
+        out['r'] = h.evict('red')
+    elif entry == 'clear':
+        out['r'] = h.clear()
+    if container == 'DjangoCache':
+        out['contains'] = [h.has_key(k) for k in keys]
+        out['get'] = [h.get(k, 'MISS') != 'MISS' for k in keys]
+    else:
+        out['contains'] = [k in h for k in keys]
+        out['get'] = [h.get(k, default='MISS') != 'MISS' for k in keys]
+    return out
+
+
+def _in_child(f):
+    """run f() in a forked child (its own interpreter state from here on: it opens its own handle); -> result or ('<child failed>', text)"""
+    import json
+    import os
+    rfd, wfd = os.pipe()
+    pid = os.fork()
+    if pid == 0:
+        code = 0
+        try:
+            os.close(rfd)
+            try:
+                data = json.dumps({'ok': f()})
+            except BaseException as e:  # noqa
+                data = json.dumps({'error': repr(e)})
+            with os.fdopen(wfd, 'w') as fh:
+                fh.write(data)
+        except BaseException:  # noqa
+            code = 1
+        finally:
+            os._exit(code)
+    os.close(wfd)
+    with os.fdopen(rfd) as fh:
+        data = fh.read()
+    os.waitpid(pid, 0)
+    try:
+        j = json.loads(data)
+    except ValueError:
+        return ('<child failed>', data[:200])
+    return j['ok'] if 'ok' in j else ('<child failed>', j.get('error'))
+
+
+def other_handle_case(mkdir, p):
+    """One scenario p = {container, handle, entry, n, dt}: the WRITER stores n items (ttl cycle %r, tags, set / add / set+touch) at t = 1000;
+    a handle of kind p['handle'] is obtained; the clock moves to 1000 + dt; the entry point is called through that handle.
+    -> (problems [(sig, text)], info)""" % (_TTLS,)
+    container, kind, entry, n, dt = p['container'], p['handle'], p['entry'], p['n'], p['dt']
+    d = mkdir()
+    clock = instr.Clock(1000.0)
+    problems = []
+    import diskcache.fanout as fanout_mod        # FanoutCache.expire reads the clock in its own module
+    with instr.Installed(clock, extra_modules=[fanout_mod]):
+        w = _open(container, d)
+        items = _populate(container, w, n)
+        keys = [k for k, _, _ in items]
+        before = _observe_all(d)
+        now = 1000.0 + dt
+        close = []
+        if kind == 'writer':
+            h = w
+        elif kind == 'reopen':
+            w.close()
+            h = _reopen(container, d)
+        elif kind == 'second':
+            h = _reopen(container, d)
+            close.append(w)
+        elif kind == 'pickle':
+            h = pickle.loads(pickle.dumps(w))
+            close.append(w)
+        else:
+            h = None
+            close.append(w)
+        clock.set(now)
+        try:
+            if h is not None:
+                out = _do_entry(h, container, entry, keys)
+            else:
+                def child():
+                    hh = _reopen(container, d)
+                    try:
+                        return _do_entry(hh, container, entry, keys)
+                    finally:
+                        hh.close()
+                out = _in_child(child)
+        except Exception as e:  # noqa
+            out = ('<raised>', repr(e))
+        after = _observe_all(d)
+        for o in close + ([h] if h is not None else []):
+            try:
+                o.close()
+            except Exception:  # noqa
+                pass
+    if isinstance(out, tuple):
+        return [('removal_raised_via_other_handle:%s' % entry, '%s through a %s handle: %r' % (entry, kind, out))], {'passed': 0}
+    passed = set(i for i, r in before.items() if r[4] is not None and r[4] < now)
+    gone = set(before) - set(after)
+    what = '%s.%s() through a handle of kind %r (%d items written by another handle at t=1000, now %r)' % (container, entry, kind, n, now)
+    if set(after) - set(before):
+        problems.append(('rows_appeared_via_other_handle:%s' % entry, what + ': %d new rows' % len(set(after) - set(before))))
+    if entry in ('expire', 'cull'):
+        left = passed - gone
+        if left:
+            problems.append(('left_passed_via_other_handle:%s' % entry, what + ' left %d of %d items whose expiry time has passed (expire_times %s)'
+                             % (len(left), len(passed), sorted(set(before[i][4] for i in left))[:4])))
+        if gone - passed:
+            problems.append(('removed_live_via_other_handle:%s' % entry, what + ' removed %d items whose expiry time has not passed' % len(gone - passed)))
+        should = passed
+    elif entry == 'evict':
+        should = set(i for i, r in before.items() if r[7] == 'red')
+        if should - gone:
+            problems.append(('left_tagged_via_other_handle:evict', what + ' left %d of %d items tagged red' % (len(should - gone), len(should))))
+        if gone - should:
+            problems.append(('removed_untagged_via_other_handle:evict', what + ' removed %d items with another tag' % len(gone - should)))
+    elif entry == 'clear':
+        should = set(before)
+        if after:
+            problems.append(('left_items_via_other_handle:clear', what + ' left %d of %d items' % (len(after), len(before))))
+    else:
+        should = set()
+        if gone:
+            problems.append(('lookup_removed_rows_via_other_handle', what + ': %d rows disappeared during lookups' % len(gone)))
+    if entry != 'lookups' and out.get('r') != len(gone):
+        problems.append(('count_via_other_handle:%s' % entry, what + ' returned %r, %d rows disappeared' % (out.get('r'), len(gone))))
+    # lookups through the same handle afterwards: visible iff not removed by this call (by specification) and now < written expiry time
+    for j, (k, ttl, tag) in enumerate(items):
+        removed = entry == 'clear' or (entry == 'evict' and tag == 'red')
+        vis = not removed and (ttl is None or now < 1000.0 + ttl)
+        for acc in ('contains', 'get'):
+            if out[acc][j] != vis:
+                at = ttl is not None and now == 1000.0 + ttl
+                problems.append(('visible_mismatch%s_via_other_handle:%s' % ('_at_expiry_instant' if at else '', acc),
+                                 what + ': afterwards %s(%r) reports %s, the item (ttl %r, tag %r) is %s'
+                                 % (acc, k, out[acc][j], ttl, tag, 'live' if vis else 'removed / expired')))
+                break
+        else:
+            continue
+        break
+    return problems, {'passed': len(passed), 'gone': len(gone)}
+
+
+def other_handles(ctx, res, stats, thorough):
+    st = stats.setdefault('other_handles', {'scenarios': 0, 'passed_items': 0, 'removed': 0})
+    dts = [0.75, 2.0, 10.0, 4000.0]
+    n = 0
+    for container in CONTAINERS:
+        for kind in HANDLE_KINDS:
+            for ei, entry in enumerate(ENTRIES):
+                for di, dt in enumerate(dts):
+                    n += 1
+                    if not thorough and (n + ctx.seed) % 2 and not (entry == 'expire' and dt == 10.0):
+                        continue            # quick tier: every (container, handle, expire) at dt = 10 and half of the rest
+                    size = 230 if (thorough or kind == 'reopen') and entry in ('expire', 'cull') and dt == 10.0 else 14
+                    p = {'check': 'other_handle', 'container': container, 'handle': kind, 'entry': entry, 'n': size, 'dt': dt}
+                    problems, info = other_handle_case(lambda: ctx.scratch('c04oh'), p)
+                    st['scenarios'] += 1
+                    st['passed_items'] += info.get('passed', 0)
+                    st['removed'] += info.get('gone', 0)
+                    res.count(['other-handle', container, kind, entry, size, dt], nontrivial=info.get('passed', 0) > 0)
+                    for sig, text in problems[:2]:
+                        res.violations.append(fw.Violation(sig, text, dict(p)))
+    res.sample({'check': 'other_handles', 'containers': CONTAINERS, 'handles': HANDLE_KINDS, 'entries': ENTRIES, 'scenarios': st['scenarios']})
+
+
 def witnesses(res):
     import tempfile, shutil
     d = tempfile.mkdtemp(prefix='c04wit-')
@@ -232,7 +484,12 @@ def run(ctx, big=False):
                 '{None, 0, 2^-10, 1, 2, -1, 2^30, -2^41} and clock steps landing exactly on, one tick before and after expiry times; populations of '
                 '350 keys sharing expiry times (more than one 100-row page); monitor from the previously observed table: a lookup sees an item '
                 'iff now < expire_time, expire() removes exactly the passed items, writes remove only passed items and at most cull_limit; '
-                'row-level model compared with the table after every call.  non-trivial = the call did not return the default.')
+                'row-level model compared with the table after every call.  non-trivial = the call did not return the default.  '
+                'Other handles: items (ttl cycle 2^-10 .. 3600 and None, tags, written by set / add / set+touch, inline and file-backed, 14 or 230 of them) '
+                'are stored through one handle of a Cache / FanoutCache / DjangoCache; expire(), cull(), evict(tag), clear() and lookups are then made through '
+                'ANOTHER handle (the writer closed and the directory reopened, a second handle beside the writer, an unpickled copy, a forked process; the '
+                'writer itself as control) after the clock moved by {0.75, 2 (an expiry instant), 10, 4000}: the rows that disappear are exactly the passed '
+                '/ tagged / all ones, the returned count is their number, and afterwards the handle sees an item iff it was not removed and now < its expiry time.')
     stats = {'lookups': 0, 'at_expiry_instant': 0, 'on_expired_row': 0, 'deliveries': 0, 'expire_calls': 0, 'expire_max_batch': 0,
              'lazy_removed': 0, 'ops': {}}
     thorough = not ctx.quick or big
@@ -240,6 +497,8 @@ def run(ctx, big=False):
     t2, r2 = run_histories(ctx, res, 2 if not thorough else 8, 60, stats, big=True)
     for n in ([150] if not thorough else [100, 101, 150, 250, 350]):
         many_share_one_time(ctx, res, stats, n)
+    other_handles(ctx, res, stats, thorough)
+    res.extra['other_handles'] = stats.get('other_handles')
     if not ctx.search_mode:
         correspondence(ctx, res, terms + t2, recs + r2)
     res.extra.update({'lookups_checked': stats['lookups'], 'lookups_exactly_at_expiry_instant': stats['at_expiry_instant'],
@@ -256,6 +515,17 @@ def search(ctx, broken):
 
 def replay(payload):
     case = payload.get('case', {})
+    if case.get('check') == 'other_handle':
+        import tempfile, shutil
+        d = tempfile.mkdtemp(prefix='c04r-')
+        try:
+            problems, info = other_handle_case(lambda: tempfile.mkdtemp(prefix='oh-', dir=d), case)
+            print(info)
+            for sig, text in problems:
+                print(sig, text)
+            return not problems
+        finally:
+            shutil.rmtree(d, ignore_errors=True)
     if case.get('check') != 'history':
         print(payload)
         return True
